@@ -793,6 +793,61 @@ def _workbook_readback(tier="quick", seed=0):
                          "model": {"case": label}, "replay": {"confirmed": True, "witness_class": "workbook-cell-mismatch", "detail": bad}})
         else:
             obls.append({"name": nm, "base": nm, "kind": "bounded", "status": "discharged", "backend": "native", "time": 0, "path": 0})
+    # PowerPoint-authored charts (several plots, formatted series): after replace_data every series left in the chart agrees with the
+    # new workbook -- no series keeps references or caches of the old data
+    import glob
+    import os
+
+    repo = os.environ.get("PPTX_REPO", "/repo")
+    bad = None
+    for f in sorted(glob.glob(os.path.join(repo, "features", "steps", "test_files", "cht-*.pptx"))):
+        for nser in (1, 2, 4):
+            prs_ = _Prs(f)
+            for sl_ in prs_.slides:
+                for shp in sl_.shapes:
+                    if not getattr(shp, "has_chart", False) or not shp.has_chart:
+                        continue
+                    ch_ = shp.chart
+                    try:
+                        kinds = {type(p_).__name__ for p_ in ch_.plots}
+                    except Exception:
+                        continue
+                    if kinds & {"XyPlot", "BubblePlot"} or not kinds or not any(len(p_.series) for p_ in ch_.plots):
+                        continue  # (a chart without any series cannot take new data: C07 finding F43)
+                    cd_ = CategoryChartData()
+                    cd_.categories = ["u", "v", "w"]
+                    for i in range(nser):
+                        cd_.add_series("N%d" % i, (10 + i, 20.5 + i, None if i == 1 else 30 + i))
+                    evals += 1
+                    try:
+                        ch_.replace_data(cd_)
+                    except Exception as e:
+                        bad = bad or "%s %s: replace_data raised %r" % (os.path.basename(f), shp.name, e)
+                        continue
+                    cells_ = cells_of(ch_.part.chart_workbook.xlsx_part.blob)
+                    root_ = etree.fromstring(etree.tostring(ch_._chartSpace))
+                    sers_ = root_.xpath("//c:ser", namespaces=cns)
+                    if len(sers_) != nser:
+                        bad = bad or "%s %s: %d series supplied, the chart holds %d after replace_data" % (os.path.basename(f), shp.name, nser, len(sers_))
+                    for ref in root_.xpath("//c:ser//c:numRef | //c:ser//c:strRef", namespaces=cns):
+                        fm = ref.xpath("c:f/text()", namespaces=cns)[0]
+                        try:
+                            coords_ = rng(fm)
+                        except Exception:
+                            bad = bad or "%s %s: reference %r is not a Sheet1 range" % (os.path.basename(f), shp.name, fm)
+                            continue
+                        for pt in ref.xpath(".//c:pt", namespaces=cns):
+                            i_ = int(pt.get("idx"))
+                            v_ = pt.xpath("c:v/text()", namespaces=cns)[0]
+                            cell_ = cells_.get(coords_[i_]) if i_ < len(coords_) else None
+                            if not (str(cell_) == v_ or (isinstance(cell_, float) and float(v_) == cell_)):
+                                bad = bad or "%s %s after replace_data with %d series: %s pt idx=%d cached %r, workbook cell holds %r" % (os.path.basename(f), shp.name, nser, fm, i_, v_, cell_)
+    nm = "C08.workbook_readback[corpus charts after replace_data]"
+    if bad:
+        obls.append({"name": nm, "base": nm, "kind": "bounded", "status": "refuted", "backend": "native", "time": 0, "path": 0,
+                     "model": {"case": "corpus"}, "replay": {"confirmed": True, "witness_class": "workbook-cell-mismatch", "detail": bad}})
+    else:
+        obls.append({"name": nm, "base": nm, "kind": "bounded", "status": "discharged", "backend": "native", "time": 0, "path": 0})
     return {"contract": "C08.workbook_readback", "prop": "C08", "status": "ok", "obligations": obls, "paths": 0, "assumed": [], "functions": {},
             "notes": [], "solver_s": 0.0, "wall_s": _t.time() - t0,
             "bounded": {"name": "C08.workbook_readback", "bound": "category charts with %s series (crossing Z/AA%s), 2-level and ragged 3-level categories (every level against its column), ragged XY and bubble data" % (nser_list, "/ZZ/AAA" if tier != "quick" else ""),
